@@ -903,6 +903,10 @@ pub fn check(prop: &str, tier: &str) -> i32 {
     let cap = if tier == "thorough" { 1500.0 } else { 240.0 };
     println!("corgisim check {} tier={} seed={} build={} workers={} mix={:?}", prop, tier, seed, build_name(), workers(), plan.mix);
     let (mut agg, capped) = run_batch(&plan, cap);
+    let mut exhaustive_dags: u64 = 0;
+    if prop == "C11" {
+        exhaustive_dags = enumerate_small_dags(&mut agg, if tier == "thorough" { 4 } else { 3 });
+    }
     let kf = load_findings();
     if agg.harness_panics > 0 {
         eprintln!("harness error: {} runs panicked inside the simulator itself: {}", agg.harness_panics, crate::last_panic());
@@ -1001,6 +1005,7 @@ pub fn check(prop: &str, tier: &str) -> i32 {
             "reach_probes_at_zero": zero_probes,
             "engine_states": agg.states.len(),
             "engine_states_measure": "distinct (reachable-node count, max fan-in, user-closure count, edge-flag mix, other live consumers, overlap with earlier passes, root kind, broadcast arrival pattern, multiset of operation kinds) tuples at pass start",
+            "exhaustive_small_dag_schedules": exhaustive_dags,
             "counters": agg.counters,
             "layer_configurations_exercised": agg.configs,
             "max_error_over_tolerance": agg.max_err_over_tol,
@@ -1293,4 +1298,65 @@ pub fn check_c19_parent(tier: &str) -> i32 {
     }
     println!("C19 {}: native f32 runs {}, cross-build histories {} ({} observations), {:.1}s, exit {}", tier, n_eval, cross.runs, cross.compared_observations, wall, exit);
     exit
+}
+
+/// C11: every DAG of up to `n` user-operation nodes over one leaf (operands with repetition, arity
+/// 1..=3), with a pass from every node; judged by the ordinary monitors. Returns the number of
+/// (DAG, root) schedules executed. Violations are filed under the pseudo-profile "small-dag".
+pub fn enumerate_small_dags(agg: &mut Agg, n: usize) -> u64 {
+    let total: u64 = (1..=n).map(crate::relational::small_dag_count).sum();
+    let nw = workers() as u64;
+    let results: Arc<Mutex<(u64, Vec<(String, u64, u64, Violation)>)>> = Arc::new(Mutex::new((0, Vec::new())));
+    let mut hs = Vec::new();
+    for w in 0..nw {
+        let results = results.clone();
+        hs.push(
+            std::thread::Builder::new()
+                .stack_size(256 << 20)
+                .spawn(move || {
+                    let mut count = 0u64;
+                    let mut viols = Vec::new();
+                    let mut flat = 0u64;
+                    for size in 1..=n {
+                        let cnt = crate::relational::small_dag_count(size);
+                        for idx in 0..cnt {
+                            flat += 1;
+                            if flat % nw != w {
+                                continue;
+                            }
+                            let base = match crate::relational::small_dag(size, idx) {
+                                Some(b) => b,
+                                None => continue,
+                            };
+                            for root in 1..=size {
+                                let mut evs = base.clone();
+                                evs.push(Ev::Pass { root, seed: Seed::Vals(vec![1.0, 3.0]), via_clone: false });
+                                count += 1;
+                                let sim = run_trace(&evs, Regime::Int, true);
+                                for v in &sim.violations {
+                                    if v.prop == "C11" && viols.len() < 4 {
+                                        let mut x = v.clone();
+                                        x.extra = json!({ "trace": evs });
+                                        viols.push(("C11".to_string(), flat, 0u64, x));
+                                    }
+                                }
+                            }
+                        }
+                    }
+                    let mut r = results.lock().unwrap();
+                    r.0 += count;
+                    r.1.extend(viols);
+                })
+                .unwrap(),
+        );
+    }
+    for h in hs {
+        h.join().unwrap();
+    }
+    let r = Arc::try_unwrap(results).ok().unwrap().into_inner().unwrap();
+    let _ = total;
+    agg.viols.extend(r.1);
+    agg.runs += r.0;
+    *agg.probes.entry("exhaustive_small_dag_schedules".into()).or_insert(0) += r.0;
+    r.0
 }
